@@ -22,7 +22,7 @@ RULE = ("Hypothesis draws abstract data and a seed for the layout. labels: 1-60 
         "root with Nums, or Kids to depth 4 with Limits: balanced / single-kid chain / caterpillar / random; nodes "
         "direct or indirect; Kids order optionally shuffled); oracle label(i) = prefix + format(style, St+i-start) "
         "checked through islice(doc.get_page_labels(), n) and PDFPage.create_pages(doc)[i].label. outlines: "
-        "forests of 0-60 items, depth <= 6, titles in both encodings, /Dest (array, name, string; direct or "
+        "forests of 0-60 items, depth <= 6 or deep chains up to the number of items, titles in both encodings, /Dest (array, name, string; direct or "
         "indirect) or /A, consistent First/Last/Next/Prev/Parent/Count, object numbers shuffled; oracle = "
         "pre-order list of (level, title, dest, action), top level 1; chain: 200-1500 siblings at level 1-3. "
         "dests: 0-40 byte-string keys (120 thorough; shared prefixes, NUL/0xFF bytes) -> array or <</D ..>> "
@@ -844,8 +844,9 @@ def labels_cases(draw, max_pages):
 def outline_cases(draw, max_items):
     rng = random.Random(draw(st.integers(0, 2 ** 32)))
     n = draw(st.one_of(st.integers(0, 8), st.integers(0, max_items)))
-    maxdepth = draw(st.integers(1, 6))
-    bias = draw(st.sampled_from([0.0, 0.3, 0.6, 0.9]))
+    # (also chains as deep as the forest has items: nesting depth is not bounded by the specification)
+    maxdepth = draw(st.one_of(st.integers(1, 6), st.integers(1, 6), st.just(1000)))
+    bias = draw(st.sampled_from([0.0, 0.3, 0.6, 0.9])) if maxdepth < 1000 else draw(st.sampled_from([0.9, 0.97, 1.0]))
     parents, level = [], []
     for i in range(n):
         if i and level[i - 1] < maxdepth and rng.random() < bias:
